@@ -10,12 +10,12 @@ from fastparquet.schema import SchemaHelper, _is_list_like, _is_map_like
 REQ, OPT, REP = 0, 1, 2
 
 
-def _nested(r1, r2, r3, ct):
+def _nested(r1, r2, r3, ct, et=2):
     return [parquet_thrift.SchemaElement(name="schema", num_children=2),
             parquet_thrift.SchemaElement(name="flat", type=2, repetition_type=r3),
             parquet_thrift.SchemaElement(name="col", num_children=1, repetition_type=r1, converted_type=ct),
             parquet_thrift.SchemaElement(name="list", num_children=1, repetition_type=r2),
-            parquet_thrift.SchemaElement(name="element", type=2, repetition_type=r3)]
+            parquet_thrift.SchemaElement(name="element", type=et, repetition_type=r3)]
 
 
 def h_levels(r1: int, r2: int, r3: int) -> bool:
@@ -113,6 +113,47 @@ def h_list_shape(r1: int, r2: int, r3: int, ct: int) -> bool:
     h = SchemaHelper(_nested(r1, r2, r3, ct))
     want = ct == parquet_thrift.ConvertedType.LIST and r2 == REP and r3 != REP
     return _is_list_like(h, _Col) == want and _is_map_like(h, _Col) is False
+
+
+def h_list_shape_types(r2: int, r3: int, et: int, ev: int, mp: bool) -> bool:
+    """
+    pre: 0 <= r2 <= 2 and 0 <= r3 <= 2 and 0 <= et <= 7 and 0 <= ev <= 7
+    post: __return__
+    """
+    # the same for every physical type of the element / of the map's value (BOOLEAN is type number 0): whether a
+    # column is a LIST or a MAP does not depend on what it holds
+    if mp:
+        els = _map(REQ, r3, r2, 1, ("key", "value"))
+        els[3].type, els[4].type = et, ev
+        h = SchemaHelper(els)
+        return _is_map_like(h, _MCol) == (r2 == REP and r3 != REP)
+    h = SchemaHelper(_nested(OPT, r2, r3, 3, et))
+    return _is_list_like(h, _Col) == (r2 == REP and r3 != REP)
+
+
+def replay_h_list_shape_types(r2, r3, et, ev, mp):
+    """a LIST<BOOLEAN> / LIST<INT64> file built from the specification is read back as lists"""
+    if mp or r2 != REP or r3 == REP or et not in (0, 2):
+        return (not h_list_shape_types(r2, r3, et, ev, mp)), "LIST / MAP shape detection depends on the physical type " \
+            "of the element (%d) / value (%d)" % (et, ev)
+    import os, shutil, tempfile
+    import fastparquet
+    from vf.pyxlift import nested_file
+    d = tempfile.mkdtemp(prefix="c15-")
+    try:
+        fn = os.path.join(d, "l.parq")
+        rows = [[1, 0], [1]]
+        nested_file.build_two_lists(fn, rows, True, r3 == OPT, rows, True, r3 == OPT, boolean=(et == 0))
+        try:
+            out = fastparquet.ParquetFile(fn).to_pandas()["a"]
+        except Exception as ex:
+            return True, "LIST column of physical type %d cannot be read: %s: %s" % (et, type(ex).__name__, str(ex)[:80])
+        got = [None if v is None else [int(x) for x in v] for v in out]
+        if got != rows:
+            return True, "LIST<%s> column holding %r reads back as %r" % ("BOOLEAN" if et == 0 else "INT64", rows, got)
+        return False, "read as lists"
+    finally:
+        shutil.rmtree(d, ignore_errors=True)
 
 
 def replay_h_list_shape(r1, r2, r3, ct):
